@@ -67,7 +67,7 @@ def as_material_array(material, basis, phases, chemicals):
     """
     isa = isinstance
     if isa(material, tmo.Stream):
-        if phases and material.phases != phases:
+        if phases and (material.phases != phases or material._imol.data.ndim != 2):
             raise ValueError("reaction and stream phases do not match")
         if material.chemicals is chemicals:
             config = None
